@@ -14,7 +14,7 @@ MINE = {'obs', 'not-enabled', 'time-decreased', 'elapsed', 'unfinished', 'missin
 
 def sig(mode, tr, at, why):
     ops = {i['op'] for b in tr['prog']['routines'].values() for i in b}
-    feat = 'tempo' if 'T' in ops else 'plain'
+    feat = 'tempo' if ops & {'T', 'ET', 'TB'} else 'plain'
     app = 'app' if any(i['c'] == 'app' for b in list(tr['prog']['routines'].values()) + [tr['prog']['main']] for i in b) else ''
     return 'time:%s:%s:%s%s' % (mode, why, feat, app)
 
